@@ -721,6 +721,7 @@ VALUE_CATALOGUE = [
   (NS_TTS, "origin", "region", "10% 20%", ("xy", (10.0, "%"), (20.0, "%"))),
   (NS_TTS, "origin", "region", "10px 20.5px", ("xy", (10.0, "px"), (20.5, "px"))),
   (NS_TTS, "origin", "region", "1c 2c", ("xy", (1.0, "c"), (2.0, "c"))),
+  (NS_TTS, "origin", "region", "-10% 5.5%", ("xy", (-10.0, "%"), (5.5, "%"))),
   (NS_TTS, "extent", "region", "80% 20%", ("extent", (80.0, "%"), (20.0, "%"))),
   (NS_TTS, "extent", "region", "640px 48px", ("extent", (640.0, "px"), (48.0, "px"))),
   (NS_TTS, "padding", "region", "1%", ("padding", (1.0, "%"), (1.0, "%"), (1.0, "%"), (1.0, "%"))),
